@@ -984,6 +984,7 @@ def evaluate(cases, obs, model_ok, out, tag, perturb=None):
     files = []
     index = []   # per file: list of (case idx, op idx)
     kinds, verdicts, sender_cls, target_cls = {}, {}, {}, {}
+    vbs = {"passes_validate_basic": 0, "fails_validate_basic": 0, "fails_validate_basic_but_handler_accepts": 0}
     for ci, (c, ob) in enumerate(zip(cases, obs)):
         if c.get("broken") or ob.get("err"):
             out.oracle_violations.append({"what": "driver failed on a case: %s" % (c.get("broken") or ob.get("err")), "rec": {"kind": "driver_error"}, "case": c})
@@ -1008,6 +1009,9 @@ def evaluate(cases, obs, model_ok, out, tag, perturb=None):
                 verdicts[vk] = verdicts.get(vk, 0) + 1
                 sc = NAMES[o["s"]].split(":")[0]
                 sender_cls[sc] = sender_cls.get(sc, 0) + 1
+                vbs["passes_validate_basic" if st["vb"] == 0 else "fails_validate_basic"] += 1
+                if st["vb"] == 1 and st["r"] == 0:
+                    vbs["fails_validate_basic_but_handler_accepts"] += 1
                 tc = target_class(o, cur)
                 if tc:
                     target_cls[tc] = target_cls.get(tc, 0) + 1
@@ -1039,7 +1043,8 @@ def evaluate(cases, obs, model_ok, out, tag, perturb=None):
             index.append(where)
     if skipped[0]:
         out.notes.append("%d rejected steps failed inside staking share arithmetic (outside the model): checked by the oracle only" % skipped[0])
-    out.distribution = {"message_kinds": kinds, "verdicts": verdicts, "sender_classes": sender_cls, "target_object_states": target_cls}
+    out.distribution = {"message_kinds": kinds, "verdicts": verdicts, "sender_classes": sender_cls, "target_object_states": target_cls,
+                        "validate_basic (reported by the driver, not part of the model)": vbs}
     if not model_ok:
         out.model_ran = False
         return
